@@ -39,6 +39,7 @@ Agree(p, ev) ==
     /\ \A i \in 1..Len(ev.items) :
           LET a == p.items[i] b == ev.items[i] IN
           \/ b.otyp \in Bookkeeping
+          \/ ~b.present /\ ~a.present
           \/ b.present /\ (a.eq = b.eq \/ (b.len < 8 /\ b.len > 0 /\ ~a.eq))
 
 Init == l = 1 /\ cfg = [V |-> 0] /\ s = [none |-> TRUE] /\ j = J0 /\ synced = FALSE
@@ -60,7 +61,7 @@ DoCall(r) ==
         uns == r.rel.u = "unsure" \/ r.rel.o = "unsure" \/ cf.e.u = "unsure" \/ cf.e.o = "unsure"
         \* an Edit / Rekey the driver issued although the document is encrypted, an Encrypt without a state, a Load without a
         \* file are refused by the harness: nothing happens
-        refused == synced /\ r.call \in {"Edit", "Rekey", "Encrypt", "Load"} /\ ~Callable(s, c) /\ r.res = "Err" /\ r.same
+        refused == synced /\ r.call \in {"Edit", "Delete", "Rekey", "Encrypt", "Load"} /\ ~Callable(s, c) /\ r.res = "Err" /\ r.same
         \* SaveRev / SaveInc (files laid out by the driver resp. IncrementalDocument) are judged only: the impl-shaped
         \* state is dropped until the next Reset, which is not drift
         foreign == r.call \in {"SaveRev", "SaveInc"}
